@@ -789,10 +789,20 @@ def run(ctx):
             for what in oracle(req, obs, rows[req['rule']], ibgp):
                 viol.append({'what': '%s  [%s %s, state %s, %s]' % (what, req['method'], req['rule'], st, cfg_name),
                              'input': req_json(req, cfg_name, conf, st), 'known': None})
-            if len(samples) < 4 and obs['class'] in (ROK, RNOTESTAB, R401) and req['cred'] in ('right', 'wrong_pass'):
-                if not any(s['class'] == CLASS_NAME[obs['class']] for s in samples):
-                    samples.append(dict(req_json(req, cfg_name, conf, st), status=obs['status'],
-                                        **{'class': CLASS_NAME[obs['class']]}))
+            want = None
+            if req['rule'].startswith('/v1/peer/') and req['method'] in ('GET', 'POST'):
+                if obs['class'] == R401 and req['cred'] == 'wrong_pass':
+                    want = 'unauthenticated'
+                elif obs['class'] == RNOTESTAB and req['rule'] == SEND_UPDATE:
+                    want = 'gate'
+                elif obs['class'] == ROK and req['rule'] == SEND_UPDATE and ibgp:
+                    want = 'send_ibgp'
+                elif obs['class'] == ROK and '/manual-stop' in req['rule'] and obs['fsm_before'] == 6:
+                    want = 'manual_stop'
+            if want and not any(x['kind'] == want for x in samples):
+                samples.append(dict(req_json(req, cfg_name, conf, st), kind=want, status=obs['status'],
+                                    wire=[x[2].hex() for x in obs['delta'] if x[0] == 'write'],
+                                    fsm_before=obs['fsm_before'], fsm_after=obs['fsm_after']))
         stats['peering_builds'] += runner.builds
         if ctx.coq_ok:
             per = 250
